@@ -476,6 +476,13 @@ fn run_mask(f: &[&str]) -> Result<String, String> {
         // rd<k>w<cut>: the same with a WouldBlock between the two reads (the call returns and is repeated)
         let partial = k.ends_with('p');
         let k = k.trim_end_matches('p');
+        // rd<k>t<c1>_<c2>: three reads (cuts c1 < c2 into the masked frame), WouldBlock between them
+        let (k, cut2): (&str, Option<usize>) = match k.split_once('_') {
+            Some((a, b)) => (a, Some(b.parse().unwrap())),
+            None => (k, None),
+        };
+        let k_owned = k.replace('t', "w");
+        let k = k_owned.as_str();
         let (k, cut, blocked): (usize, Option<usize>, bool) = match (k.split_once('c'), k.split_once('w')) {
             (Some((a, b)), _) => (a.parse().unwrap(), Some(b.parse().unwrap()), false),
             (_, Some((a, b))) => (a.parse().unwrap(), Some(b.parse().unwrap()), true),
@@ -490,6 +497,16 @@ fn run_mask(f: &[&str]) -> Result<String, String> {
         h.format(payload.len() as u64, &mut wire).unwrap();
         wire.extend_from_slice(&payload);
         let chunks: Vec<String> = match cut {
+            Some(c) if k + c > 0 && k + c < wire.len() && blocked && cut2.map_or(false, |c2| c2 > c && k + c2 < wire.len()) => {
+                let c2 = cut2.unwrap();
+                vec![
+                    format!("d:{}", hex(&wire[..k + c])),
+                    "e:wb".to_string(),
+                    format!("d:{}", hex(&wire[k + c..k + c2])),
+                    "e:wb".to_string(),
+                    format!("d:{}", hex(&wire[k + c2..])),
+                ]
+            }
             Some(c) if k + c > 0 && k + c < wire.len() && blocked => {
                 vec![format!("d:{}", hex(&wire[..k + c])), "e:wb".to_string(), format!("d:{}", hex(&wire[k + c..]))]
             }
@@ -509,9 +526,11 @@ fn run_mask(f: &[&str]) -> Result<String, String> {
         }
         let mut r = ws.read();
         if blocked {
-            if let Err(Error::Io(ref e)) = r {
-                if e.kind() == std::io::ErrorKind::WouldBlock {
-                    r = ws.read();
+            for _ in 0..2 {
+                if let Err(Error::Io(ref e)) = r {
+                    if e.kind() == std::io::ErrorKind::WouldBlock {
+                        r = ws.read();
+                    }
                 }
             }
         }
